@@ -69,7 +69,7 @@ var (
 		mkOpt("seconds-optional-nodesc", refcron.Optional, true, true, true, true, refcron.Required, false),
 		mkOpt("dow-optional", refcron.Absent, true, true, true, true, refcron.Optional, true),
 		mkOpt("seconds+dow-optional", refcron.Required, true, true, true, true, refcron.Optional, true),
-		mkOpt("dom-month-dow", refcron.Absent, false, false, true, true, refcron.Required, false),       // NewParser doc example
+		mkOpt("dom-month-dow", refcron.Absent, false, false, true, true, refcron.Required, false),        // NewParser doc example
 		mkOpt("dom-month-dowoptional", refcron.Absent, false, false, true, true, refcron.Optional, true), // NewParser doc example
 	}
 )
